@@ -1,5 +1,5 @@
 # replay of a bounded stand-in violation (C11): re-run native/c11_compilers.py
 import sys
-print("gaussian_merge n=3 gates=[('Rgate', (1,)), ('MZgate', (0, 1)), ('Rgate', (1,)), ('Vgate', (1,)), ('Fouriergate', (0,)), ('MZgate', (0, 1)), ('MZgate', (0, 1)), ('Kgate', (2,)), ('Dgate', (0,)), ('BSgate', (0, 2)), ('BSgate', (0, 1))]: compiled program gives different reduced states on the fock backend (max difference 0.0362)")
+print("gaussian_merge n=5 gates=[('BSgate', (4, 2)), ('MZgate', (2, 0)), ('CKgate', (1, 3)), ('Dgate', (1,)), ('Sgate', (1,)), ('Sgate', (3,)), ('Vgate', (1,)), ('Rgate', (3,)), ('BSgate', (3, 0)), ('Kgate', (0,)), ('Rgate', (1,)), ('Dgate', (3,)), ('CKgate', (4, 3)), ('S2gate', (1, 2)), ('Dgate', (1,)), ('MZgate', (4, 2))]: with the opaque gates interpreted as fixed unitaries the compiled program [('CKgate', [1, 3]), ('Kgate', [0]), ('GaussianTransform', [1]), ('Dgate', [1]), ('Vgate', [1]), ('Rgate', [1]), ('GaussianTransform', [0, 1, 2, 3, 4]), ('Dgate', [3]), ('Dgate', [1]), ('CKgate', [4, 3]), ('MZgate', [4, 2]), ('MeasureFock', [0, 1, 2, 3, 4])] computes something else (max difference 0.727)")
 print('REPLAY-VIOLATION')
 sys.exit(1)
